@@ -314,9 +314,10 @@ class VectorSpline2D(BaseGridder):
         east, north = n_1d_arrays(coordinates, n=2)
         cast = np.broadcast(*coordinates[:2])
         npoints = cast.size
+        dtype = np.result_type(east.dtype, self.force_.dtype)
         components = (
-            np.empty(npoints, dtype=east.dtype),
-            np.empty(npoints, dtype=east.dtype),
+            np.empty(npoints, dtype=dtype),
+            np.empty(npoints, dtype=dtype),
         )
         if parse_engine(self.engine) == "numba":
             components = predict_2d_numba(
